@@ -1341,6 +1341,24 @@ class _AlwaysSortable(object):
             return self.sortable_value() < other.sortable_value()
 
 
+def _deferred_plain_rerender(value, ctx):
+    # Renders ``value`` with the plain multiline strategy, but only
+    # when the layout algorithm actually picks this variant. Rendering
+    # it eagerly renders every commented dict value twice at each
+    # level of nesting, which is exponential in the nesting depth.
+    plain_ctx = (
+        ctx
+        .nested_call()
+        .use_multiline_strategy(MULTILINE_STRATEGY_PLAIN)
+        ._replace(visited=set(ctx.visited))
+    )
+
+    def evaluator(indent, column, page_width, ribbon_width):
+        return pretty_python_value(value, ctx=plain_ctx)
+
+    return contextual(evaluator)
+
+
 @register_pretty(dict)
 def pretty_dict(d, ctx, trailing_comment=None):
     constructor = type(d)
@@ -1466,14 +1484,7 @@ def pretty_dict(d, ctx, trailing_comment=None):
                                 HARDLINE,
                                 # Rerender vdoc with plain multiline strategy,
                                 # since we already have an indentation.
-                                pretty_python_value(
-                                    v,
-                                    ctx=(
-                                        ctx
-                                        .nested_call()
-                                        .use_multiline_strategy(MULTILINE_STRATEGY_PLAIN)
-                                    ),
-                                ),
+                                _deferred_plain_rerender(v, ctx),
                                 COMMA if not last else NIL,
                             ])
                         ),
